@@ -458,6 +458,21 @@ def c03(tier, seed):
         start(w, h, 0, sor=False, hk="plus")
         for k in range(2):
             H.decode(pg.inter_picture(rng, pg.header("plus", "P", tr=k + 1, q=rng.randrange(1, 32), w=w, h=h), big=False))
+    # (f) standard mode error concealment (beyond the property): a macroblock header that is no code word ends the picture
+    #     there - the rest is copied from the reference and the reader stays at the offending macroblock
+    for (w, h) in [(32, 32), (36, 20), (64, 48)]:
+        for fault in ("mcbpc", "cbpy"):
+            for rep in range(2 if tier == "quick" else 12):
+                start(w, h, 0, sor=False, hk="plus")
+                p = pg.inter_picture(rng, pg.header("plus", "P", tr=1, q=rng.randrange(1, 32), w=w, h=h), big=False)
+                idx = [i for i, m in enumerate(p["mbs"]) if m["k"] == "mb"]
+                i = rng.choice(idx)
+                p["mbs"] = p["mbs"][:i + 1]
+                p["mbs"][i]["fault"] = fault
+                H.op("newreader")
+                H.decode(p)
+                H.op("newreader")
+                H.decode(pg.inter_picture(rng, pg.header("plus", "P", tr=2, q=rng.randrange(1, 32), w=w, h=h), big=False))
     npics = sum(1 for c in H.cmds if "pic" in c)
     enc = run.encode(H.cmds)
     run.drive_and_validate(enc, "TraceDecoder", group=hkey, sample=2)
@@ -1094,130 +1109,140 @@ def c01(tier, seed):
     run = Run("C01", tier, seed)
     rng = random.Random(seed)
     run.model_check("MCDecoder", "MCDecoder", workers=8, xmx="4g")
-    # ---- base material: valid pictures as abstract values, encoded by TLC
-    base = []
-
-    def add(tag, pic, **kw):
-        c = {"op": "x", "pic": pic, "tag": tag, "opaque": True}
-        c.update(kw)
-        base.append(c)
-
-    dims = [(1, 1), (15, 16), (16, 16), (17, 16), (32, 16), (32, 32), (33, 17), (48, 32), (16, 48)]
-    for (w, h) in dims:
-        for ver in (0, 1):
-            add("I", pg.intra_picture(rng, sor_hdr(rng, "I", 0, w, h, ver), stuffing=0.05), w=w, h=h, ver=ver, sor=True)
-            add("P", pg.inter_picture(rng, sor_hdr(rng, "P", 1, w, h, ver), stuffing=0.05), w=w, h=h, ver=ver, sor=True)
-            add("D", pg.inter_picture(rng, sor_hdr(rng, "D", 2, w, h, ver), pt="D"), w=w, h=h, ver=ver, sor=True)
-    for (w, h) in [(16, 16), (36, 20)]:
-        add("I", pg.intra_picture(rng, pg.header("plus", "I", tr=0, q=rng.randrange(1, 32), w=w, h=h), big=False), w=w, h=h, ver=0, sor=False)
-        add("P", pg.inter_picture(rng, pg.header("plus", "P", tr=1, q=rng.randrange(1, 32), w=w, h=h), big=False), w=w, h=h, ver=0, sor=False)
-    # structured attacks on the abstract level: declared size vs actual macroblocks, zero sizes, extremes
-    attacks = []
-    for (w, h) in [(16, 16), (32, 16)]:
-        for (dw, dh) in [(0, 0), (0, 16), (16, 0), (1, 1), (15, 15), (17, 17), (32, 32), (33, 16), (16, 33), (255, 255), (64, 1),
-                         (65535, 1), (1, 65535), (65521, 16), (16, 65530), (4095, 1)]:
-            for ver in (0, 1):
-                for pt in ("I", "P"):
-                    hdr = sor_hdr(rng, pt, 3, w, h, ver)
-                    p = pg.intra_picture(rng, hdr, big=False) if pt == "I" else pg.inter_picture(rng, hdr, big=False)
-                    p["w"], p["h"] = dw, dh          # declared size differs from the macroblocks present
-                    if dw > 255 or dh > 255:
-                        p["sc"] = 1
-                    attacks.append({"op": "x", "pic": p, "tag": "declare-%dx%d" % (dw, dh), "opaque": True, "w": w, "h": h, "ver": ver, "sor": True})
-    for ver in (0, 1):
-        for q in (1, 2, 30, 31):
-            for lev in ([1, 63, 127] if ver == 0 else [1, 63, 127, 528, 529, 1023]):
-                for sgn in (1, -1):
-                    form = 1 if (ver == 0 or lev <= 63) else 2
-                    blocks = [{"dc": 255, "ev": [[0, 0, sgn * lev, form], [0, 62, -sgn * lev, form], [1, 0, sgn * lev, form]]} for _ in range(6)]
-                    p = one_mb_intra(rng, ver, q, 15, 3, blocks=blocks)       # run past 64 and extreme levels
-                    attacks.append({"op": "x", "pic": p, "tag": "run-past-64", "opaque": True, "w": 16, "h": 16, "ver": ver, "sor": True})
-    for ver in (0, 1):      # vectors far outside: chains of extreme differentials
-        for d in (-32, 31):
-            hdr = sor_hdr(rng, "P", 4, 48, 32, ver)
-            p = dict(hdr)
-            p["mbs"] = [pg.coded_mb(rng, rng.choice([0, 2]), ver == 1, mvd=None, big=False) for _ in range(6)]
-            for m in p["mbs"]:
-                m["mvd"] = [[d, d] for _ in m["mvd"]]
-            attacks.append({"op": "x", "pic": p, "tag": "vectors-far-outside", "opaque": True, "w": 48, "h": 32, "ver": ver, "sor": True})
-    enc = run.encode(base + attacks)
-    encbase, encatt = enc[:len(base)], enc[len(base):]
-    byt = lambda tag, w, h, ver, sor: [c["bytes"] for c in encbase if c["tag"] == tag and c["w"] == w and c["h"] == h and c["ver"] == ver and c["sor"] == sor]
-    # ---- histories of opaque calls
-    H = Hist()
+    run.model_check("MbLoop", "MbLoop", workers=4)      # the macroblock loop terminates: measure decreases, <>returns
+    rounds = 1 if tier == "quick" else 30
     ncalls = [0]
+    nhist = 0
+    distinct = set()
+    for rnd in range(rounds):
+        # ---- base material: valid pictures as abstract values, encoded by TLC
+        base = []
 
-    def call(b, why):
-        H.op("newreader")
-        H.decode(None, bytes=b, planes=False, why=why, guard_size=True)
-        ncalls[0] += 1
+        def add(tag, pic, **kw):
+            c = {"op": "x", "pic": pic, "tag": tag, "opaque": True}
+            c.update(kw)
+            base.append(c)
 
-    combos = [(True, False), (True, True), (False, False), (False, True)]
-    nrep = 10 if tier == "quick" else 400
-    # (a) every structured attack after every kind of prior history, all option combinations
-    prehist = [[], ["I"], ["I", "P"], ["I", "D"], ["I", "X"], ["X"]]
-    for rep in range(1 if tier == "quick" else 6):
-        for a in encatt:
-            for pre in prehist:
-                for (sor, scal) in (combos if rep == 0 else [rng.choice(combos)]):
-                    H.new(sor=sor, scal=scal)
-                    for t in pre:
-                        if t == "X":
-                            call(rng.choice(GARBAGE), "garbage")
-                        else:
-                            cand = byt(t, a["w"], a["h"], a["ver"], True)
-                            call(rng.choice(cand), "valid-" + t)
-                    call(a["bytes"], a["tag"])
-                    # and something valid afterwards: the decoder must still be usable
-                    cand = byt("P", a["w"], a["h"], a["ver"], True)
-                    call(rng.choice(cand), "valid-P-after")
-    # (b) truncation of valid pictures at every byte, in histories
-    for c in encbase:
-        if c["w"] * c["h"] > 32 * 32 and tier == "quick":
-            continue
-        step = 1 if len(c["bytes"]) < 200 or tier == "thorough" else 3
-        for cut in range(0, len(c["bytes"]), step):
-            H.new(sor=c["sor"])
-            if c["tag"] != "I":
-                cand = byt("I", c["w"], c["h"], c["ver"], c["sor"])
-                call(cand[0], "valid-I")
-            call(c["bytes"][:cut], "truncate-at-%s" % ("every-byte"))
-    # (c) random corruptions of valid pictures inside random histories, incl. picture-size changes between calls
-    for i in range(1500 * nrep):
-        sor, scal = rng.choice(combos)
-        H.new(sor=sor, scal=scal)
-        for k in range(rng.randrange(1, 9)):
-            c = rng.choice(encbase)
-            if rng.random() < 0.45:
+        dims = [(1, 1), (15, 16), (16, 16), (17, 16), (32, 16), (32, 32), (33, 17), (48, 32), (16, 48)]
+        for (w, h) in dims:
+            for ver in (0, 1):
+                add("I", pg.intra_picture(rng, sor_hdr(rng, "I", 0, w, h, ver), stuffing=0.05), w=w, h=h, ver=ver, sor=True)
+                add("P", pg.inter_picture(rng, sor_hdr(rng, "P", 1, w, h, ver), stuffing=0.05), w=w, h=h, ver=ver, sor=True)
+                add("D", pg.inter_picture(rng, sor_hdr(rng, "D", 2, w, h, ver), pt="D"), w=w, h=h, ver=ver, sor=True)
+        for (w, h) in [(16, 16), (36, 20)]:
+            add("I", pg.intra_picture(rng, pg.header("plus", "I", tr=0, q=rng.randrange(1, 32), w=w, h=h), big=False), w=w, h=h, ver=0, sor=False)
+            add("P", pg.inter_picture(rng, pg.header("plus", "P", tr=1, q=rng.randrange(1, 32), w=w, h=h), big=False), w=w, h=h, ver=0, sor=False)
+        # structured attacks on the abstract level: declared size vs actual macroblocks, zero sizes, extremes
+        attacks = []
+        for (w, h) in [(16, 16), (32, 16)]:
+            for (dw, dh) in [(0, 0), (0, 16), (16, 0), (1, 1), (15, 15), (17, 17), (32, 32), (33, 16), (16, 33), (255, 255), (64, 1),
+                             (65535, 1), (1, 65535), (65521, 16), (16, 65530), (4095, 1)]:
+                for ver in (0, 1):
+                    for pt in ("I", "P"):
+                        hdr = sor_hdr(rng, pt, 3, w, h, ver)
+                        p = pg.intra_picture(rng, hdr, big=False) if pt == "I" else pg.inter_picture(rng, hdr, big=False)
+                        p["w"], p["h"] = dw, dh          # declared size differs from the macroblocks present
+                        if dw > 255 or dh > 255:
+                            p["sc"] = 1
+                        attacks.append({"op": "x", "pic": p, "tag": "declare-%dx%d" % (dw, dh), "opaque": True, "w": w, "h": h, "ver": ver, "sor": True})
+        for ver in (0, 1):
+            for q in (1, 2, 30, 31):
+                for lev in ([1, 63, 127] if ver == 0 else [1, 63, 127, 528, 529, 1023]):
+                    for sgn in (1, -1):
+                        form = 1 if (ver == 0 or lev <= 63) else 2
+                        blocks = [{"dc": 255, "ev": [[0, 0, sgn * lev, form], [0, 62, -sgn * lev, form], [1, 0, sgn * lev, form]]} for _ in range(6)]
+                        p = one_mb_intra(rng, ver, q, 15, 3, blocks=blocks)       # run past 64 and extreme levels
+                        attacks.append({"op": "x", "pic": p, "tag": "run-past-64", "opaque": True, "w": 16, "h": 16, "ver": ver, "sor": True})
+        for ver in (0, 1):      # vectors far outside: chains of extreme differentials
+            for d in (-32, 31):
+                hdr = sor_hdr(rng, "P", 4, 48, 32, ver)
+                p = dict(hdr)
+                p["mbs"] = [pg.coded_mb(rng, rng.choice([0, 2]), ver == 1, mvd=None, big=False) for _ in range(6)]
+                for m in p["mbs"]:
+                    m["mvd"] = [[d, d] for _ in m["mvd"]]
+                attacks.append({"op": "x", "pic": p, "tag": "vectors-far-outside", "opaque": True, "w": 48, "h": 32, "ver": ver, "sor": True})
+        enc = run.encode(base + attacks)
+        encbase, encatt = enc[:len(base)], enc[len(base):]
+        byt = lambda tag, w, h, ver, sor: [c["bytes"] for c in encbase if c["tag"] == tag and c["w"] == w and c["h"] == h and c["ver"] == ver and c["sor"] == sor]
+        # ---- histories of opaque calls
+        H = Hist()
+
+        def call(b, why):
+            H.op("newreader")
+            H.decode(None, bytes=b, planes=False, why=why, guard_size=True)
+            ncalls[0] += 1
+
+        combos = [(True, False), (True, True), (False, False), (False, True)]
+        nrep = 10
+        # (a) every structured attack after every kind of prior history, all option combinations
+        prehist = [[], ["I"], ["I", "P"], ["I", "D"], ["I", "X"], ["X"]]
+        for rep in range(1):
+            for a in encatt:
+                for pre in prehist:
+                    for (sor, scal) in (combos if rep == 0 else [rng.choice(combos)]):
+                        H.new(sor=sor, scal=scal)
+                        for t in pre:
+                            if t == "X":
+                                call(rng.choice(GARBAGE), "garbage")
+                            else:
+                                cand = byt(t, a["w"], a["h"], a["ver"], True)
+                                call(rng.choice(cand), "valid-" + t)
+                        call(a["bytes"], a["tag"])
+                        # and something valid afterwards: the decoder must still be usable
+                        cand = byt("P", a["w"], a["h"], a["ver"], True)
+                        call(rng.choice(cand), "valid-P-after")
+        # (b) truncation of valid pictures at every byte, in histories
+        for c in encbase:
+            if c["w"] * c["h"] > 32 * 32 and tier == "quick":
+                continue
+            step = 1 if len(c["bytes"]) < 200 or tier == "thorough" else 3
+            for cut in range(0, len(c["bytes"]), step):
+                H.new(sor=c["sor"])
+                if c["tag"] != "I":
+                    cand = byt("I", c["w"], c["h"], c["ver"], c["sor"])
+                    call(cand[0], "valid-I")
+                call(c["bytes"][:cut], "truncate-at-%s" % ("every-byte"))
+        # (c) random corruptions of valid pictures inside random histories, incl. picture-size changes between calls
+        for i in range(1500 * nrep):
+            sor, scal = rng.choice(combos)
+            H.new(sor=sor, scal=scal)
+            for k in range(rng.randrange(1, 9)):
+                c = rng.choice(encbase)
+                if rng.random() < 0.45:
+                    call(c["bytes"], "valid-" + c["tag"])
+                else:
+                    b, why = mutate(rng, c["bytes"])
+                    call(b, why)
+        # (d) uniform random bytes behind a valid start code, and plain random bytes
+        for i in range(2500 * nrep):
+            sor, scal = rng.choice(combos)
+            H.new(sor=sor, scal=scal)
+            if rng.random() < 0.5:
+                c = rng.choice(encbase)
                 call(c["bytes"], "valid-" + c["tag"])
+            n = rng.randrange(0, 120)
+            if sor:
+                b = [0, 0, 0x80 | rng.randrange(0, 4)] + rbytes(rng, n)
             else:
-                b, why = mutate(rng, c["bytes"])
-                call(b, why)
-    # (d) uniform random bytes behind a valid start code, and plain random bytes
-    for i in range(2500 * nrep):
-        sor, scal = rng.choice(combos)
-        H.new(sor=sor, scal=scal)
-        if rng.random() < 0.5:
-            c = rng.choice(encbase)
-            call(c["bytes"], "valid-" + c["tag"])
-        n = rng.randrange(0, 120)
-        if sor:
-            b = [0, 0, 0x80 | rng.randrange(0, 4)] + rbytes(rng, n)
-        else:
-            b = [0, 0, 0x80, rng.randrange(0, 4)] + rbytes(rng, n)
-        r_ = rng.random()
-        if r_ < 0.5:        # a valid header (and a little macroblock data) followed by random bytes: goes deep
-            c = rng.choice(encbase)
-            k = rng.randrange(4, min(len(c["bytes"]), 14) + 1)
-            call(c["bytes"][:k] + rbytes(rng, n), "valid-header-then-random")
-        else:
-            call(b if r_ < 0.93 else rbytes(rng, n), "random-bytes")
-    run.drive_and_validate(H.cmds, "TraceDecoder", group=hkey, sample=3, stat_fn=decode_stat, timeout_ms=10000,
-                           resync=lambda c: c["op"] == "new")
+                b = [0, 0, 0x80, rng.randrange(0, 4)] + rbytes(rng, n)
+            r_ = rng.random()
+            if r_ < 0.5:        # a valid header (and a little macroblock data) followed by random bytes: goes deep
+                c = rng.choice(encbase)
+                k = rng.randrange(4, min(len(c["bytes"]), 14) + 1)
+                call(c["bytes"][:k] + rbytes(rng, n), "valid-header-then-random")
+            else:
+                call(b if r_ < 0.93 else rbytes(rng, n), "random-bytes")
+        run.drive_and_validate(H.cmds, "TraceDecoder", group=hkey, sample=3, stat_fn=decode_stat, timeout_ms=10000,
+                               resync=lambda c: c["op"] == "new")
+        nhist += H.n
+        for c in H.cmds:
+            if c["op"] == "decode":
+                distinct.add(hash(json.dumps(c.get("bytes"))))
     run.evaluations = ncalls[0]
-    run.nontrivial = len({json.dumps(c.get("bytes")) for c in H.cmds if c["op"] == "decode"})
+    run.nontrivial = len(distinct)
     run.notes["decode_calls"] = ncalls[0]
-    run.notes["histories"] = H.n
+    run.notes["histories"] = nhist
+    run.notes["rounds"] = rounds
     run.assumptions = ["inputs declaring more than 2^22 luma samples are not generated (the property's stated exclusion)",
                        "memory safety proper is delegated to safe Rust (the three crates contain no unsafe code); the harness "
                        "build has overflow checks and debug assertions enabled, so arithmetic overflow is observed as a panic"]
